@@ -19,6 +19,9 @@
 #include "celeritas/global/CoreTrackView.hh"
 #include "celeritas/global/alongstep/detail/ElossApplier.hh"
 #include "celeritas/global/alongstep/detail/MeanELoss.hh"
+#include "celeritas/global/alongstep/detail/MscApplier.hh"
+#include "celeritas/global/alongstep/detail/MscStepLimitApplier.hh"
+#include "celeritas/global/alongstep/detail/PropagationApplier.hh"
 #include "celeritas/global/alongstep/detail/TimeUpdater.hh"
 #include "celeritas/global/alongstep/detail/TrackUpdater.hh"
 #include "celeritas/grid/EnergyLossCalculator.hh"
@@ -52,6 +55,45 @@ struct ScriptedEloss
         *seen_apply_cut = apply_cut;
         *seen_step = step;
         return Energy{value};
+    }
+};
+
+//! propagator returning a scripted result (PropagationApplier's MP concept)
+struct ScriptedPropagator
+{
+    Propagation result;
+    bool can_loop;
+    Propagation operator()(real_type) { return result; }
+    bool tracks_can_loop() const { return can_loop; }
+};
+
+//! MSC helper with scripted answers (MscStepLimitApplier / MscApplier's MH concept):
+//! limit_step stores (true, geom) and shortens the step to the geometrical path,
+//! apply_step restores the stored true path, like UrbanMsc does
+struct ScriptedMsc
+{
+    bool applicable;
+    real_type true_path;
+    real_type geom_path;
+    int* applied;
+
+    bool is_applicable(CoreTrackView const&, real_type) const
+    {
+        return applicable;
+    }
+    void limit_step(CoreTrackView const& track)
+    {
+        MscStep m;
+        m.true_path = true_path;
+        m.geom_path = geom_path;
+        track.make_physics_step_view().msc_step(m);
+        track.make_sim_view().step_length(geom_path);
+    }
+    void apply_step(CoreTrackView const& track)
+    {
+        ++*applied;
+        track.make_sim_view().step_length(
+            track.make_physics_step_view().msc_step().true_path);
     }
 };
 
@@ -405,6 +447,69 @@ int main()
                     bool lim = sim.step_limit({s, class_action(track, c)});
                     os << ' ' << lim << ' ' << hex(sim.step_length()) << ' '
                        << paction_class(track, sim.post_step_action());
+                }
+            }
+            else if (kind == "propagate")
+            {
+                // propagate <pclass0> <step0> <dist> <boundary> <can_loop>
+                int pclass;
+                is >> pclass;
+                real_type step0 = rd(is);
+                real_type dist = rd(is);
+                int boundary, can_loop;
+                is >> boundary >> can_loop;
+                auto& fx = get_p2(0.001);
+                auto state
+                    = fx.make_state(ParticleId{3}, 2.0, p2_pos(0), {0, 0, 1});
+                CoreTrackView track(
+                    fx.core->host_ref(), state->ref(), ThreadId{0});
+                auto sim = track.make_sim_view();
+                sim.reset_step_limit({step0, class_action(track, pclass)});
+                Propagation p;
+                p.distance = dist;
+                p.boundary = boundary != 0;
+                p.looping = false;
+                auto mp = [&](CoreTrackView const&) {
+                    return ScriptedPropagator{p, can_loop != 0};
+                };
+                detail::PropagationApplier<decltype(mp)> apply{std::move(mp)};
+                apply(track);
+                os << "ok " << hex(sim.step_length()) << ' '
+                   << paction_class(track, sim.post_step_action()) << ' '
+                   << static_cast<int>(sim.status());
+            }
+            else if (kind == "msc")
+            {
+                // msc <n> { phys_step applicable true geom }*
+                size_type n;
+                is >> n;
+                auto& fx = get_p2(0.001);
+                auto state
+                    = fx.make_state(ParticleId{3}, 2.0, p2_pos(0), {0, 0, 1});
+                CoreTrackView track(
+                    fx.core->host_ref(), state->ref(), ThreadId{0});
+                auto sim = track.make_sim_view();
+                {
+                    MscStep zero;
+                    zero.true_path = 0;
+                    zero.geom_path = 0;
+                    track.make_physics_step_view().msc_step(zero);
+                }
+                os << "ok";
+                for (size_type i = 0; i < n; ++i)
+                {
+                    real_type phys = rd(is);
+                    int applicable;
+                    is >> applicable;
+                    real_type tp = rd(is), gp = rd(is);
+                    sim.reset_step_limit({phys, class_action(track, 2)});
+                    int applied = 0;
+                    ScriptedMsc msc{applicable != 0, tp, gp, &applied};
+                    detail::MscStepLimitApplier<ScriptedMsc&>{msc}(track);
+                    real_type geo_step = sim.step_length();
+                    detail::MscApplier<ScriptedMsc&>{msc}(track);
+                    os << ' ' << applied << ' ' << hex(geo_step) << ' '
+                       << hex(sim.step_length());
                 }
             }
             else if (kind == "update")
